@@ -187,7 +187,15 @@ def run_case_isolated(machine, case, wall_cap=None):
 
 
 def runner_for(machine):
-    return run_case_isolated if getattr(machine, "ISOLATE", False) else run_case
+    if getattr(machine, "ISOLATE", False):
+        return run_case_isolated
+    per_case = getattr(machine, "isolate", None)
+    if per_case is None:
+        return run_case
+
+    def runner(m, case, wall_cap=None):
+        return run_case_isolated(m, case, wall_cap) if per_case(case) else run_case(m, case, wall_cap)
+    return runner
 
 
 # ---------------------------------------------------------------------------
